@@ -23,8 +23,7 @@
 //! * type instantiation on a *method* call (`obj:m<<T>>(…)`): the types are dropped, the
 //!   call itself is kept (`call_drops_method_types` tells);
 //! * attribute arguments and grouping: `@[a, b(1)]` and `@a @b` both give the names `a b`;
-//! * the leading `|` / `&` of union / intersection types;
-//! * `Foo<>` (empty type parameter list) is indistinguishable from `Foo`.
+//! * the leading `|` / `&` of union / intersection types.
 //!
 //! Numbers
 //! -------
@@ -51,6 +50,7 @@
 //! ```text
 //! type T ::= name:Foo P*            named type, kids = type parameters
 //!          | field:ns.Foo P*        namespaced type
+//!          | name<>:Foo | field<>:ns.Foo     `Foo<>`: present but empty parameter list
 //!          | true | false | nil
 //!          | string:x<hex>          singleton string type (value bytes)
 //!          | array T
@@ -755,6 +755,13 @@ fn type_parameters_tree(type_name: &TypeName) -> Vec<Sexp> {
         })
         .unwrap_or_default()
 }
+/// `Foo<>` (a present but empty parameter list) is tagged `name<>:Foo`
+fn empty_parameters_mark(type_name: &TypeName) -> &'static str {
+    match type_name.get_type_parameters() {
+        Some(parameters) if parameters.is_empty() => "<>",
+        _ => "",
+    }
+}
 fn modifier_suffix(modifier: Option<&TablePropertyModifier>) -> &'static str {
     match modifier {
         None => "",
@@ -766,12 +773,13 @@ fn modifier_suffix(modifier: Option<&TablePropertyModifier>) -> &'static str {
 pub fn type_to_tree(ty: &Type) -> Sexp {
     match ty {
         Type::Name(type_name) => ty_node(
-            &format!("name:{}", type_name.get_type_name().get_name()),
+            &format!("name{}:{}", empty_parameters_mark(type_name), type_name.get_type_name().get_name()),
             type_parameters_tree(type_name),
         ),
         Type::Field(field) => ty_node(
             &format!(
-                "field:{}.{}",
+                "field{}:{}.{}",
+                empty_parameters_mark(field.get_type_name()),
                 field.get_namespace().get_name(),
                 field.get_type_name().get_type_name().get_name()
             ),
@@ -1409,8 +1417,14 @@ fn type_parameter_of(s: &Sexp) -> R<TypeParameter> {
     Ok(TypeParameter::Type(tree_to_type(s)?))
 }
 
-fn type_name_of(type_name: &str, parameters: &[Sexp]) -> R<TypeName> {
+fn type_name_of(type_name: &str, parameters: &[Sexp], empty_list: bool) -> R<TypeName> {
     let mut out = TypeName::new(type_name);
+    if empty_list {
+        if !parameters.is_empty() {
+            return Err(format!("type: name<>:{} cannot have type parameters", type_name));
+        }
+        return Ok(out.with_type_parameters(std::iter::empty::<TypeParameter>().collect()));
+    }
     for parameter in parameters {
         out.push_type_parameter(type_parameter_of(parameter)?);
     }
@@ -1561,10 +1575,12 @@ pub fn tree_to_type(s: &Sexp) -> R<Type> {
         None => (tag.as_str(), None),
     };
     match (tag_head, tag_arg, kids) {
-        ("name", Some(type_name), parameters) => Ok(type_name_of(type_name, parameters)?.into()),
-        ("field", Some(path), parameters) => {
+        ("name" | "name<>", Some(type_name), parameters) => {
+            Ok(type_name_of(type_name, parameters, tag_head == "name<>")?.into())
+        }
+        ("field" | "field<>", Some(path), parameters) => {
             let (namespace, type_name) = path.split_once('.').ok_or_else(bad)?;
-            Ok(TypeField::new(namespace, type_name_of(type_name, parameters)?).into())
+            Ok(TypeField::new(namespace, type_name_of(type_name, parameters, tag_head == "field<>")?).into())
         }
         ("true", None, []) => Ok(Type::True(None)),
         ("false", None, []) => Ok(Type::False(None)),
